@@ -504,7 +504,9 @@ class Unit:
         expr = str(self.expr)
         base_value = copy.deepcopy(self.base_value)
         base_offset = copy.deepcopy(self.base_offset)
-        dimensions = copy.deepcopy(self.dimensions)
+        # SymPy expressions are immutable; the copy must keep unyt's dimension
+        # singletons because angle/temperature/logarithmic are tested by identity
+        dimensions = self.dimensions
         if deep:
             registry = copy.deepcopy(self.registry)
         else:
